@@ -71,7 +71,53 @@ def shape_key(fn):
     return (rint.fn_name(fn), tuple(ta))
 
 
+def data_dependent(l):
+    """does the linear form depend on buffer contents (a wire read, or a quantity accumulated by a loop over them)?"""
+    for a in lin(l).atoms():
+        if a[0] == "wire":
+            return True
+        if a[0] == "sym" and "@L" in a[1]:
+            return True
+        if a[0] == "mul" and any(isinstance(x, tuple) and (x[0] == "wire" or (x[0] == "sym" and "@L" in x[1])) for x in a[1]):
+            return True
+    return False
+
+
+def step_rule(chk, lib, fn, s, classes_with_end):
+    """R-CHK.step: an operation of a view/iterator class that carries `end` and moves its own `ptr` by an amount read
+    from the buffer must have established ptr' <= end by its asserted checks: otherwise ptr passes end without the
+    handler and every later SBEPP_SIZE_CHECK computes (end - ptr) as a huge unsigned value and lets the access through"""
+    if fn.get("cls_tpl") not in classes_with_end and fn.get("cls") not in classes_with_end:
+        return 0
+    n = 0
+    pre, end = sym("this.ptr"), sym("this.end")
+    for p in s.live:
+        th = p.post.get("this")
+        np_ = th.fields.get("ptr") if isinstance(th, Obj) else None
+        if not isinstance(np_, Lin) or np_ == pre:
+            continue
+        if not data_dependent(np_ - pre):
+            continue
+        n += 1
+        facts = facts_before(p, len(p.events))
+        key = "%s|step" % rint.fn_name(fn)
+        if nonpos(np_ - end, facts):
+            chk.ok("R-CHK.step", key + "|" + show(np_)[:60], {"function": fn["qn"][:140], "new_ptr": show(np_)}, nontrivial=True)
+        else:
+            chk.violation("R-CHK.step", key, where(fn),
+                          "%s [%s] moves ptr to %s, an amount read from the buffer, and no asserted check of the operation "
+                          "implies ptr <= end afterwards: the handler is not invoked and later size checks on the moved "
+                          "view wrap around" % (fn["qn"][:200], lib.label, show(np_)))
+    return n
+
+
 def check(chk, lib, gen_root, per_shape=2, max_paths=200, skip_visit=True):
+    classes_with_end = set()
+    for r in lib.facts.get("records", []):
+        fl = {x["name"] for x in r.get("fields") or []}
+        if "ptr" in fl and "end" in fl and r.get("file", "").endswith("sbepp.hpp"):
+            classes_with_end.add(r.get("tpl") or r.get("qn"))
+    n_step = 0
     groups = {}
     for fn in lib.eng.fns.values():
         if is_entry(fn, gen_root):
@@ -96,6 +142,7 @@ def check(chk, lib, gen_root, per_shape=2, max_paths=200, skip_visit=True):
                 n_skip += 1
                 continue
             n_fn += 1
+            n_step += step_rule(chk, lib, fn, s, classes_with_end)
             af = arg_facts(fn)
             for p in s.paths:
                 p._arg_facts = af
@@ -113,4 +160,5 @@ def check(chk, lib, gen_root, per_shape=2, max_paths=200, skip_visit=True):
                         chk.violation("R-CHK", key, where(fn),
                                       "%s of [%s, +%s) in %s [%s] is not covered by a dominating size check/assertion: %s"
                                       % (e[0], show(e[1]), show(e[2]), fn["qn"][:200], lib.label, why))
+    chk.extra["rchk_steps"] = chk.extra.get("rchk_steps", 0) + n_step
     return n_fn, n_acc, n_skip
